@@ -22,6 +22,7 @@ MODELS = {
     'rand0':          ((2, 3), False),
     'randq':          ((2, 3), True),
     'randqz':         ((2, 3), True),
+    'prodh':          ((2, 3), False),
     'rand0s':         ((2, 3), False),
     'randqs':         ((2, 3), True),
 }
@@ -77,6 +78,13 @@ def build_hamiltonian(name, L, d, rng):
         return ptn.bose_hubbard_mpo(d, L, _nz(rng), _nz(rng), _nz(rng))
     if name == 'fermi_hubbard':
         return ptn.fermi_hubbard_mpo(L, _nz(rng), _nz(rng), _nz(rng))
+    if name == 'prodh':
+        # product operator: every bond of the MPO has dimension one, every site carries its own complex Hermitian matrix
+        H = ptn.MPO([0] * d, [[0]] * (L + 1), fill=0.0)
+        for i in range(L):
+            X = rng.standard_normal((d, d)) + 1j * rng.standard_normal((d, d))
+            H.A[i] = ((X + X.conj().T) / 2).reshape(d, d, 1, 1) * float(rng.uniform(0.7, 1.6))
+        return H
     if name in ('rand0', 'randq', 'rand0s', 'randqs', 'randqz'):
         # random Hermitian MPO X + X^dagger; spectral norm rescaled to the range of the built-in models
         # ('...s' = stiff variant: ||H|| of a few hundred, see the note on Lanczos orthogonality in r_C08)
